@@ -190,6 +190,33 @@ namespace
                 auto owns = [&](const char* p, std::size_t n) { return mlog().owns(p, n); };
                 while (cx().step < a.ops)
                 {
+                    if (r.chance(5))
+                    {
+                        // the minimum alignment is part of the allocator's state: it moves along (the wrapped heap_allocator is stateless,
+                        // so everything outstanding stays valid)
+                        std::size_t new_min = std::size_t(1) << r.below(5);
+                        int         how     = int(r.below(3));
+                        op("%s min_alignment=%zu", how == 0 ? "move-assign from an allocator with" : how == 1 ? "move-construct + move-assign back," : "set_min_alignment", new_min);
+                        if (how == 0)
+                        {
+                            A other(new_min);
+                            alloc = std::move(other);
+                        }
+                        else if (how == 1)
+                        {
+                            A other(new_min);
+                            A moved(std::move(other));
+                            alloc = std::move(moved);
+                        }
+                        else
+                            alloc.set_min_alignment(new_min);
+                        min_al = new_min;
+                        if (alloc.min_alignment() != min_al)
+                            viol("C02", "C02/" + kind + "/min-alignment-after-move",
+                                 "after the allocator was replaced by one with minimum alignment %zu it reports min_alignment() %zu", min_al, alloc.min_alignment());
+                        vf::count("aligned_moves");
+                        continue;
+                    }
                     if (r.chance(55) || sh.live.empty())
                     {
                         std::size_t size  = r.range(1, 300);
